@@ -359,6 +359,23 @@ func (e *Engine) callWrites(cc *ssa.CallCommon, w *WriteSet, fn *ssa.Function, v
 			return
 		}
 		switch funcKey(f) {
+		case "sort.Slice", "sort.SliceStable", "sort.Strings", "sort.Ints", "sort.Sort", "sort.Stable", "slices.Sort", "slices.SortFunc":
+			// sorts its first argument in place: writes that slice's element memory
+			if len(cc.Args) > 0 {
+				a := cc.Args[0]
+				if mi, ok := a.(*ssa.MakeInterface); ok {
+					a = mi.X
+				}
+				if st, ok := a.Type().Underlying().(*types.Slice); ok {
+					key, _ := e.memKey(st.Elem())
+					w.Heap[key] = true
+					return
+				}
+			}
+			w.setAll("sort of a non-slice value")
+			return
+		}
+		switch funcKey(f) {
 		case "golang.org/x/sync/errgroup.WithContext", "golang.org/x/sync/errgroup.Group.Wait",
 			"golang.org/x/sync/semaphore.Weighted.Acquire", "golang.org/x/sync/semaphore.Weighted.Release", "golang.org/x/sync/semaphore.Weighted.TryAcquire":
 			return
